@@ -829,6 +829,18 @@ theorem run_fwd (p : Params) : ∀ (evs : List Ev) (s s' : St),
       simp [h1] at ha
       exact run_fwd p es s1 s' (step_fwd p s s1 e h (hf e (by simp)) h1) (fun x hx => hf x (by simp [hx])) ha
 
+theorem acceptAll_append (p : Params) : ∀ (a b : List Ev) (s s' : St), acceptAll p s (a ++ b) = some s' →
+    ∃ s1, acceptAll p s a = some s1 ∧ acceptAll p s1 b = some s'
+  | [], b, s, s', h => ⟨s, by simp [acceptAll], by simpa using h⟩
+  | e :: a, b, s, s', h => by
+    simp only [List.cons_append, acceptAll] at h
+    cases h1 : accept p s e with
+    | none => simp [h1] at h
+    | some s0 =>
+      simp only [h1] at h
+      obtain ⟨s1, ha, hb⟩ := acceptAll_append p a b s0 s' h
+      exact ⟨s1, by simp [acceptAll, h1, ha], hb⟩
+
 /-- nothing is accepted after `_exit` -/
 theorem accept_exited (p : Params) (s : St) (c : Nat) (h : s.pc = .exited c) (e : Ev) : accept p s e = none := by
   cases e with
